@@ -52,6 +52,8 @@ type BatchResult struct {
 	Distinct       []uint64       `json:"distinct"`   // hashes of distinct non-trivial scenarios
 	Samples        []*Scenario    `json:"samples,omitempty"`
 	StuckAbandoned int            `json:"stuck_abandoned"`
+	ShadowEvents   int64          `json:"shadow_events"`      // loop events checked by the online reference model
+	ExactStates    int64          `json:"exact_state_checks"` // State reports compared field by field with the model
 }
 
 func stuckProp(family string) string {
@@ -149,6 +151,8 @@ func RunBatch(seed uint64, family string, from, count int, quiet bool, progressF
 			br.Overcommit++
 		}
 		br.PerturbHits += int64(st.PerturbHits)
+		br.ShadowEvents += int64(st.ShadowEvents)
+		br.ExactStates += int64(st.ExactStates)
 		br.MustNotStart += int64(st.MustNotStart)
 		br.Failures += int64(st.Failures)
 		br.Goexits += int64(st.Goexits)
